@@ -5,6 +5,9 @@
 From BT Require Import Base.Prelude Base.Str Base.Rose Algo.Diff Spec.PC15.
 
 Record dcase := DC {
+  dc_binary : bool;       (* both trees are BinaryNode trees *)
+  dc_stable : bool;       (* harness: inputs unchanged by the call (apart from other_tree.sep), a second call on the
+                             same objects returns the same, the result has the inputs' class and shares no node *)
   dc_sep : str;  dc_sep2 : str;  dc_t1 : tree;  dc_t2 : tree;  dc_only_diff : bool;  dc_attrs : list str;
   dc_obs : dobs
 }.
@@ -18,14 +21,14 @@ Definition agree (m : res (option (list onode))) (o : dobs) : bool :=
   end.
 
 Definition model_of (c : dcase) : res (option (list onode)) :=
-  get_tree_diff_seps (dc_sep c) (dc_sep2 c) (dc_t1 c) (dc_t2 c) (dc_only_diff c) (dc_attrs c).
+  get_tree_diff_cls (dc_binary c) (dc_sep c) (dc_sep2 c) (dc_t1 c) (dc_t2 c) (dc_only_diff c) (dc_attrs c).
 
 (* F_SKIP: outside the domain (separator inside a name, different root names, ...).
    The property predicate is evaluated whenever no name already ends in a marker; the model is
    compared in any case. *)
 Definition check_C15 (c : dcase) : nat :=
   if negb (domain_C15 (dc_sep c) (dc_t1 c) (dc_t2 c) (dc_attrs c)) then F_SKIP else
-  flag (negb (agree (model_of c) (dc_obs c))) F_DISAGREE
+  flag (negb (agree (model_of c) (dc_obs c)) || negb (dc_stable c)) F_DISAGREE
   + flag (lookalike_free (dc_t1 c) (dc_t2 c)
           && negb (prop_C15 (dc_sep c) (dc_t1 c) (dc_t2 c) (dc_only_diff c) (dc_attrs c) (dc_obs c)))
          F_PROPFAIL.
